@@ -1,10 +1,13 @@
 //! C13 — aggregations and suggestions do not depend on paging.
-//! Engine: inputmc aggs-paging — C12 worlds whose query has >= 4 matches x 6 queries x one request
-//! carrying 7 aggregation trees and 2 completion suggesters; variants: every page of cursor walks
-//! with page size 1,2,3 (the first pages are the limit 1 / 2 / 3 variants), limit n, 3 sort plans,
-//! 3 execution strategies, return_hits off, explain, profile and rescore on.
-//! Oracle: `aggregations` and `suggest` of every variant equal those of the reference variant
-//! (first page, limit = n, bm25, default sort).
+//! Engine: inputmc aggs-paging — C12 worlds x 9 queries (6 plain with >= 4 matches, 3 with custom
+//! scoring that drops documents: function_score + min_score over match_all and over a term,
+//! script_score with a division by a zero / missing field) x two request kinds (7 aggregation
+//! trees including top_hits; the 6 trees without top_hits, because top_hits forces scoring) + 2
+//! completion suggesters; variants: every page of cursor walks with page size 1,2,3 (the first
+//! pages are the limit 1 / 2 / 3 variants), limit n, 3 sort plans, 3 execution strategies,
+//! return_hits off, explain, profile and rescore on.
+//! Oracle: `aggregations` and `suggest` of every variant equal those of the reference variant of
+//! the same request kind (first page, limit = n, bm25, default sort).
 
 use std::collections::{BTreeMap, BTreeSet};
 
@@ -23,7 +26,27 @@ use crate::Ctx;
 pub const SIG_CURSOR: &str = "C13-aggs-exclude-docs-before-cursor";
 pub const SIG_SCORE0: &str = "C13-top-hits-score-zero-when-request-sort-has-no-score";
 
+/// Queries whose scoring can reject documents (the scoring hook is part of matching).
+fn custom_queries() -> Vec<QSpec> {
+  let fvf = json!([{"type": "field_value_factor", "field": "n", "factor": 1.0, "missing": 0.0}]);
+  vec![
+    QSpec { name: "function_score(match_all, n, min_score 2)", query: json!({"type": "function_score", "query": {"type": "match_all"}, "functions": fvf, "boost_mode": "replace", "min_score": 2.0}), filter: None, const_score: false },
+    QSpec { name: "function_score(term a, n, min_score 2)", query: json!({"type": "function_score", "query": {"type": "term", "field": "body", "value": "a"}, "functions": fvf, "boost_mode": "replace", "min_score": 2.0}), filter: None, const_score: false },
+    QSpec { name: "script_score(match_all, 1 / n)", query: json!({"type": "script_score", "query": {"type": "match_all"}, "script": "1 / n"}), filter: None, const_score: false },
+  ]
+}
+
 fn queries() -> Vec<QSpec> {
+  let mut v = plain_queries();
+  v.extend(custom_queries());
+  v
+}
+
+fn is_custom(q: &QSpec) -> bool {
+  q.query.get("type").and_then(|t| t.as_str()).map(|t| t == "function_score" || t == "script_score").unwrap_or(false)
+}
+
+fn plain_queries() -> Vec<QSpec> {
   vec![
     QSpec { name: "match_all", query: json!({"type": "match_all"}), filter: None, const_score: true },
     QSpec { name: "a", query: json!("a"), filter: None, const_score: false },
@@ -36,8 +59,8 @@ fn queries() -> Vec<QSpec> {
 
 /// Aggregation trees without any option that C12 found to be applied per segment, so that the
 /// C12 oracle can be used by the classifier.
-fn agg_trees() -> Value {
-  json!({
+fn agg_trees(with_top_hits: bool) -> Value {
+  let mut v = json!({
     "t": {"type": "terms", "field": "kw"},
     "h": {"type": "histogram", "field": "f", "interval": 1.0, "min_doc_count": 1, "aggs": {"s": {"type": "stats", "field": "n"}}},
     "r": {"type": "range", "field": "f", "keyed": true, "ranges": [{"key": "low", "to": 0.75}, {"key": "mid", "from": 0.75, "to": 2.25}, {"key": "high", "from": 1.75}], "aggs": {"vc": {"type": "value_count", "field": "f"}}},
@@ -45,7 +68,11 @@ fn agg_trees() -> Value {
     "m": {"type": "extended_stats", "field": "f"},
     "c": {"type": "composite", "size": 10, "sources": [{"type": "terms", "name": "k", "field": "kw"}], "aggs": {"card": {"type": "cardinality", "field": "kw2"}}},
     "th": {"type": "top_hits", "size": 2, "sort": [{"field": "n", "order": "asc"}]}
-  })
+  });
+  if !with_top_hits {
+    v.as_object_mut().unwrap().remove("th");
+  }
+  v
 }
 
 fn suggesters() -> Value {
@@ -67,6 +94,8 @@ fn rescore_json() -> Value {
 
 #[derive(Clone, Debug)]
 struct Variant {
+  /// request kind: 0 = all 7 aggregation trees, 1 = the 6 trees without top_hits
+  kind: usize,
   exec: usize,
   sort: usize,
   /// page size (limit)
@@ -81,12 +110,13 @@ struct Variant {
 
 impl Variant {
   fn to_json(&self, page: usize) -> Value {
-    json!({"execution": EXECS[self.exec], "sort": sort_plans()[self.sort], "limit": self.limit, "page": page, "return_hits": self.return_hits, "explain": self.explain, "profile": self.profile, "rescore": self.rescore})
+    json!({"aggs_with_top_hits": self.kind == 0, "execution": EXECS[self.exec], "sort": sort_plans()[self.sort], "limit": self.limit, "page": page, "return_hits": self.return_hits, "explain": self.explain, "profile": self.profile, "rescore": self.rescore})
   }
   fn from_json(v: &Value) -> (Variant, usize) {
     let sp = sort_plans();
     (
       Variant {
+        kind: if v["aggs_with_top_hits"].as_bool().unwrap_or(true) { 0 } else { 1 },
         exec: EXECS.iter().position(|e| Some(*e) == v["execution"].as_str()).unwrap_or(0),
         sort: sp.iter().position(|s| s == &v["sort"]).unwrap_or(0),
         limit: v["limit"].as_u64().unwrap_or(1) as usize,
@@ -102,7 +132,7 @@ impl Variant {
 }
 
 fn variants(n: usize) -> Vec<Variant> {
-  let base = Variant { exec: 0, sort: 0, limit: n, walk: false, return_hits: true, explain: false, profile: false, rescore: false };
+  let base = Variant { kind: 0, exec: 0, sort: 0, limit: n, walk: false, return_hits: true, explain: false, profile: false, rescore: false };
   let mut v = Vec::new();
   for exec in 0..3 {
     for sort in 0..3 {
@@ -121,22 +151,43 @@ fn variants(n: usize) -> Vec<Variant> {
   v.push(Variant { rescore: true, ..base.clone() });
   v.push(Variant { rescore: true, limit: 2, walk: true, ..base.clone() });
   v.push(Variant { rescore: true, explain: true, profile: true, limit: 1, walk: true, exec: 2, sort: 2, ..base.clone() });
+  v.push(Variant { return_hits: false, sort: 1, ..base.clone() });
+  v.push(Variant { explain: true, sort: 1, ..base.clone() });
+  // request kind 1 (no top_hits, so nothing but the sort plan consumes scores): a reduced set
+  let b1 = Variant { kind: 1, ..base.clone() };
+  for sort in 0..3 {
+    for exec in 0..3 {
+      v.push(Variant { exec, sort, ..b1.clone() });
+    }
+    v.push(Variant { sort, limit: 2, walk: true, ..b1.clone() });
+    v.push(Variant { sort, return_hits: false, ..b1.clone() });
+    v.push(Variant { sort, explain: true, ..b1.clone() });
+  }
+  v.push(Variant { sort: 1, profile: true, ..b1.clone() });
+  v.push(Variant { sort: 1, rescore: true, ..b1.clone() });
   v
 }
 
+fn reference_variant(kind: usize, n: usize) -> Variant {
+  Variant { kind, exec: 0, sort: 0, limit: n, walk: false, return_hits: true, explain: false, profile: false, rescore: false }
+}
+
 struct Parsed {
-  tmpl: SearchRequest,
+  tmpl: [SearchRequest; 2],
   sorts: Vec<Vec<SortSpec>>,
   execs: Vec<ExecutionStrategy>,
   rescore: RescoreRequest,
 }
 
 fn parse(q: &QSpec) -> Parsed {
-  let mut r = q.request_json(1);
-  r["aggs"] = agg_trees();
-  r["suggest"] = suggesters();
+  let mk = |with_top_hits: bool| {
+    let mut r = q.request_json(1);
+    r["aggs"] = agg_trees(with_top_hits);
+    r["suggest"] = suggesters();
+    req(r)
+  };
   Parsed {
-    tmpl: req(r),
+    tmpl: [mk(true), mk(false)],
     sorts: sort_plans().into_iter().map(|s| serde_json::from_value(s).expect("sort")).collect(),
     execs: EXECS.iter().map(|e| serde_json::from_value(json!(e)).expect("exec")).collect(),
     rescore: serde_json::from_value(rescore_json()).expect("rescore"),
@@ -144,7 +195,7 @@ fn parse(q: &QSpec) -> Parsed {
 }
 
 fn request(p: &Parsed, v: &Variant, cursor: Option<String>) -> SearchRequest {
-  let mut r = p.tmpl.clone();
+  let mut r = p.tmpl[v.kind].clone();
   r.limit = v.limit;
   r.execution = p.execs[v.exec].clone();
   r.sort = p.sorts[v.sort].clone();
@@ -182,14 +233,14 @@ fn run_variant(reader: &IndexReader, p: &Parsed, v: &Variant, n: usize) -> Resul
 /// reorders the window after the cursor key was chosen, any j >= 1).
 /// SIG_SCORE0: when the request's sort plan has no `_score` key the collectors are fed score 0,
 /// so top_hits reports score 0 -- modelled by `zero_scores`.
-fn explained_by_model(world: &World, page: &SearchResult, order: &SearchResult, from: usize, zero_scores: bool) -> bool {
+fn explained_by_model(world: &World, kind: usize, page: &SearchResult, order: &SearchResult, from: usize, zero_scores: bool) -> bool {
   let mut docs: Vec<MDoc> = Vec::new();
   for h in order.hits.iter().skip(from) {
     let Some(pos) = world.docs.iter().position(|d| d["_id"].as_str() == Some(h.doc_id.as_str())) else { return false };
     docs.push(MDoc { pos, id: world.docs[pos]["_id"].as_str().unwrap(), doc: &world.docs[pos], score: if zero_scores { 0.0 } else { h.score } });
   }
   docs.sort_by_key(|d| d.pos);
-  let aggs = agg_trees();
+  let aggs = agg_trees(kind == 0);
   for (name, agg) in aggs.as_object().unwrap() {
     let Some(obs) = page.aggregations.get(name) else { return false };
     let Ok(c) = canon(agg, &serde_json::to_value(obs).unwrap(), false) else { return false };
@@ -207,6 +258,7 @@ struct Out {
   evals: u64,
   worlds: u64,
   cases: u64,
+  custom_cases: u64,
   nontrivial: u64,
   variant_errors: BTreeMap<String, u64>,
   outcomes: BTreeSet<String>,
@@ -225,10 +277,45 @@ impl Out {
   }
 }
 
-/// Compare every page of one variant with the reference; returns per-page verdicts
-/// (page index, signature, difference).
-fn judge_variant(world: &World, v: &Variant, pages: &[SearchResult], reference: &(Value, Value), orders: &[SearchResult]) -> Vec<(usize, Option<&'static str>, String)> {
-  let order = &orders[v.sort];
+/// Reference material of one (world, query): per request kind the reference result and the hit
+/// order (with scores) of every sort plan (limit-n bm25 variant without flags).
+struct Refs {
+  res: Vec<SearchResult>,
+  obs: Vec<(Value, Value)>,
+  orders: Vec<Vec<SearchResult>>,
+}
+
+fn references(reader: &IndexReader, p: &Parsed, n: usize) -> Result<Refs, String> {
+  let mut r = Refs { res: vec![], obs: vec![], orders: vec![] };
+  for kind in 0..2 {
+    let base = reference_variant(kind, n);
+    let mut pages = run_variant(reader, p, &base, n)?;
+    let first = pages.remove(0);
+    r.obs.push(observable(&first));
+    let mut ord = Vec::new();
+    for s in 0..3 {
+      match run_variant(reader, p, &Variant { sort: s, ..base.clone() }, n) {
+        Ok(mut pg) => ord.push(pg.remove(0)),
+        Err(_) => ord.push(first.clone()),
+      }
+    }
+    r.orders.push(ord);
+    r.res.push(first);
+  }
+  Ok(r)
+}
+
+fn id_set(r: &SearchResult) -> BTreeSet<&str> {
+  r.hits.iter().map(|h| h.doc_id.as_str()).collect()
+}
+
+/// Compare every page of one variant with the reference of its request kind; returns per-page
+/// verdicts (page index, signature, difference).
+fn judge_variant(world: &World, v: &Variant, pages: &[SearchResult], refs: &Refs) -> Vec<(usize, Option<&'static str>, String)> {
+  let reference = &refs.obs[v.kind];
+  let order = &refs.orders[v.kind][v.sort];
+  // the defect models only apply when this sort plan sees the very documents the reference sees
+  let same_docs = id_set(order) == id_set(&refs.res[v.kind]);
   let sort_has_score = v.sort == 0 || sort_plans()[v.sort].as_array().map(|a| a.iter().any(|x| x["field"] == "_score")).unwrap_or(true);
   let mut out = Vec::new();
   for (k, pg) in pages.iter().enumerate() {
@@ -238,12 +325,14 @@ fn judge_variant(world: &World, v: &Variant, pages: &[SearchResult], reference: 
     match (d_aggs, d_sug) {
       (None, None) => {}
       (Some(d), None) => {
-        let sig = if k > 0 {
+        let sig = if !same_docs {
+          None
+        } else if k > 0 {
           // a cursor is present: aggregations cover only the documents after the cursor position
           let before: usize = pages[..k].iter().map(|p| p.hits.len()).sum();
           let cands: Vec<usize> = if v.rescore { (1..order.hits.len()).collect() } else { vec![before] };
-          if cands.into_iter().any(|j| explained_by_model(world, pg, order, j, false) || (!sort_has_score && explained_by_model(world, pg, order, j, true))) { Some(SIG_CURSOR) } else { None }
-        } else if !sort_has_score && explained_by_model(world, pg, order, 0, true) {
+          if cands.into_iter().any(|j| explained_by_model(world, v.kind, pg, order, j, false) || (!sort_has_score && explained_by_model(world, v.kind, pg, order, j, true))) { Some(SIG_CURSOR) } else { None }
+        } else if !sort_has_score && explained_by_model(world, v.kind, pg, order, 0, true) {
           Some(SIG_SCORE0)
         } else {
           None
@@ -257,9 +346,10 @@ fn judge_variant(world: &World, v: &Variant, pages: &[SearchResult], reference: 
 }
 
 fn check_corpus(shape_idx: &[usize], layouts: &[Vec<usize>], deleted: &[String], qs: &[QSpec], parsed: &[Parsed]) -> Out {
-  let mut out = Out { fails: vec![], more: vec![], evals: 0, worlds: 0, cases: 0, nontrivial: 0, variant_errors: BTreeMap::new(), outcomes: BTreeSet::new() };
+  let mut out = Out { fails: vec![], more: vec![], evals: 0, worlds: 0, cases: 0, custom_cases: 0, nontrivial: 0, variant_errors: BTreeMap::new(), outcomes: BTreeSet::new() };
   let n = shape_idx.len();
   let vars = variants(n);
+  let custom: Vec<bool> = qs.iter().map(is_custom).collect();
   for layout in layouts {
     let world = mk_world(shape_idx, layout, deleted);
     let idx = world.build();
@@ -267,32 +357,37 @@ fn check_corpus(shape_idx: &[usize], layouts: &[Vec<usize>], deleted: &[String],
     out.worlds += 1;
     for (qi, q) in qs.iter().enumerate() {
       let p = &parsed[qi];
-      let reference = match run_variant(&reader, p, &vars[0], n) {
+      // cheap pre-check with the reference of kind 0 before the other reference requests are made
+      let first = match run_variant(&reader, p, &reference_variant(0, n), n) {
         Ok(r) => r,
         Err(e) => {
-          out.fail(None, || format!("{} query={}: reference request failed: {e}", world.describe(), q.name), || json!({"world": world.to_json(), "query": q.to_json(), "variant": vars[0].to_json(1)}));
+          out.fail(None, || format!("{} query={}: reference request failed: {e}", world.describe(), q.name), || json!({"world": world.to_json(), "query": q.to_json(), "variant": reference_variant(0, n).to_json(1)}));
           continue;
         }
       };
-      let matches = reference[0].hits.len();
-      if matches < 4 || reference[0].next_cursor.is_some() {
+      let matches = first[0].hits.len();
+      let live = world.docs.len() - world.deleted.len();
+      // plain queries: >= 4 matches (meaningful walks); custom scoring: some but not all documents
+      let wanted = if custom[qi] { matches >= 2 && matches < live } else { matches >= 4 };
+      if !wanted || first[0].next_cursor.is_some() {
         continue;
       }
-      out.cases += 1;
-      let refobs = observable(&reference[0]);
-      // hit order (and scores) of each sort plan: the limit-n bm25 variant without flags
-      let mut orders: Vec<SearchResult> = Vec::new();
-      for s in 0..3 {
-        match run_variant(&reader, p, &Variant { sort: s, ..vars[0].clone() }, n) {
-          Ok(mut r) => orders.push(r.remove(0)),
-          Err(_) => orders.push(reference[0].clone()),
+      let refs = match references(&reader, p, n) {
+        Ok(r) => r,
+        Err(e) => {
+          out.fail(None, || format!("{} query={}: reference request failed: {e}", world.describe(), q.name), || json!({"world": world.to_json(), "query": q.to_json(), "variant": reference_variant(1, n).to_json(1)}));
+          continue;
         }
+      };
+      out.cases += 1;
+      if custom[qi] {
+        out.custom_cases += 1;
       }
       for v in &vars {
         let pages = match run_variant(&reader, p, v, n) {
           Ok(pg) => pg,
           Err(e) => {
-            let key = format!("{} [rescore={} explain={} sort_plan={}]", e.chars().take(80).collect::<String>(), v.rescore, v.explain, v.sort);
+            let key = format!("{} [rescore={} explain={} sort_plan={} custom_scoring={}]", e.chars().take(80).collect::<String>(), v.rescore, v.explain, v.sort, custom[qi]);
             *out.variant_errors.entry(key).or_default() += 1;
             if e.starts_with("PANIC") {
               out.fail(None, || format!("docs={} layout={:?} query={} variant={}: {e}", json!(world.docs), layout, q.name, v.to_json(1)), || json!({"engine": "inputmc-aggs-paging", "world": world.to_json(), "query": q.to_json(), "variant": v.to_json(1)}));
@@ -304,7 +399,7 @@ fn check_corpus(shape_idx: &[usize], layouts: &[Vec<usize>], deleted: &[String],
         if pages.len() >= 2 {
           out.nontrivial += 1;
         }
-        let bad = judge_variant(&world, v, &pages, &refobs, &orders);
+        let bad = judge_variant(&world, v, &pages, &refs);
         if bad.is_empty() {
           out.outcomes.insert(format!("same/{}pages", pages.len()));
         }
@@ -314,7 +409,7 @@ fn check_corpus(shape_idx: &[usize], layouts: &[Vec<usize>], deleted: &[String],
             sig,
             || {
               let before: Vec<&str> = pages[..k].iter().flat_map(|pg| pg.hits.iter().map(|h| h.doc_id.as_str())).collect();
-              format!("docs={} layout={:?} deleted={:?} query={} ({} matches) variant={} (documents on earlier pages: {:?}): differs from the reference (first page, limit {}, bm25) at {}", json!(world.docs), layout, deleted, q.name, matches, v.to_json(k + 1), before, n, d)
+              format!("docs={} layout={:?} deleted={:?} query={} ({} matches) variant={} (documents on earlier pages: {:?}): differs from the reference (same aggregations, first page, limit {}, bm25, default sort) at {}", json!(world.docs), layout, deleted, q.name, matches, v.to_json(k + 1), before, n, d)
             },
             || json!({"engine": "inputmc-aggs-paging", "world": world.to_json(), "query": q.to_json(), "variant": v.to_json(k + 1)}),
           );
@@ -333,18 +428,15 @@ fn replay_once(cs: &Value) -> Option<String> {
   let n = world.docs.len();
   let idx = world.build();
   let reader = idx.reader().expect("reader");
-  let base = variants(n)[0].clone();
-  let reference = match run_variant(&reader, &p, &base, n) {
+  let refs = match references(&reader, &p, n) {
     Ok(r) => r,
     Err(e) => return Some(format!("reference request failed: {e}")),
   };
-  let refobs = observable(&reference[0]);
   let pages = match run_variant(&reader, &p, &v, n) {
     Ok(pg) => pg,
     Err(e) => return if e.starts_with("PANIC") { Some(e) } else { None },
   };
-  let orders: Vec<SearchResult> = (0..3).map(|s| run_variant(&reader, &p, &Variant { sort: s, ..base.clone() }, n).map(|mut r| r.remove(0)).unwrap_or_else(|_| reference[0].clone())).collect();
-  judge_variant(&world, &v, &pages, &refobs, &orders).into_iter().find(|(k, _, _)| k + 1 == page).map(|(k, sig, d)| format!("page {} [{}]: {d}", k + 1, sig.unwrap_or("unexplained")))
+  judge_variant(&world, &v, &pages, &refs).into_iter().find(|(k, _, _)| k + 1 == page).map(|(k, sig, d)| format!("page {} [{}]: {d}", k + 1, sig.unwrap_or("unexplained")))
 }
 
 pub fn run(ctx: &Ctx) -> i32 {
@@ -359,15 +451,16 @@ pub fn run(ctx: &Ctx) -> i32 {
   // (corpus, layouts, deleted)
   let mut plan: Vec<(Vec<usize>, Vec<Vec<usize>>, Vec<String>)> = Vec::new();
   let few4 = vec![vec![4], vec![2, 2], vec![1, 3], vec![1, 1, 1, 1]];
+  let quick4 = vec![vec![4], vec![2, 2], vec![1, 1, 1, 1]];
   let few5 = vec![vec![5], vec![2, 3], vec![4, 1], vec![1, 1, 1, 1, 1]];
   let plan_text = if quick {
     for c in multisets(8, 4) {
-      plan.push((c, few4.clone(), vec![]));
+      plan.push((c, quick4.clone(), vec![]));
     }
     for c in multisets(4, 5) {
       plan.push((c, vec![vec![2, 3]], vec![id_of(1)]));
     }
-    "every multiset of 4 of 8 shapes x layouts {[4],[2,2],[1,3],[1,1,1,1]}; every multiset of 5 of 4 shapes, layout [2,3], document B deleted"
+    "every multiset of 4 of 8 shapes x layouts {[4],[2,2],[1,1,1,1]}; every multiset of 5 of 4 shapes, layout [2,3], document B deleted"
   } else {
     for c in corpora(6, 4, 4) {
       plan.push((c, compositions(4), vec![]));
@@ -381,13 +474,14 @@ pub fn run(ctx: &Ctx) -> i32 {
     }
     "every sequence of 4 of 6 shapes x all 8 layouts; every multiset of 4 of 10 shapes x 4 layouts; every multiset of 5 of 8 shapes x 4 layouts and x 2 layouts with document B deleted"
   };
-  let deadline = if quick { 33.0 } else { 840.0 };
+  let deadline = if quick { 27.0 } else { 840.0 };
   let (mut evals, mut worlds, mut cases, mut nontrivial, mut done) = (0u64, 0u64, 0u64, 0u64, 0usize);
+  let mut custom_cases = 0u64;
   let mut outcomes: BTreeSet<String> = BTreeSet::new();
   let mut verrs: BTreeMap<String, u64> = BTreeMap::new();
   let mut by_sig: BTreeMap<String, u64> = BTreeMap::new();
   let mut timed_out = false;
-  for chunk in plan.chunks(64) {
+  for chunk in plan.chunks(if quick { 32 } else { 64 }) {
     if rep.elapsed_s() > deadline {
       timed_out = true;
       break;
@@ -414,6 +508,7 @@ pub fn run(ctx: &Ctx) -> i32 {
       evals += o.evals;
       worlds += o.worlds;
       cases += o.cases;
+      custom_cases += o.custom_cases;
       nontrivial += o.nontrivial;
       outcomes.extend(o.outcomes);
       for (k, v) in o.variant_errors {
@@ -422,18 +517,19 @@ pub fn run(ctx: &Ctx) -> i32 {
     }
   }
   rep.add_evals(evals);
-  rep.sample(json!({"queries": qs.iter().map(|q| q.to_json()).collect::<Vec<_>>(), "aggs": agg_trees(), "suggest": suggesters(), "variants_per_case": variants(4).len(), "sort_plans": sort_plans(), "rescore": rescore_json()}));
+  rep.sample(json!({"queries": qs.iter().map(|q| q.to_json()).collect::<Vec<_>>(), "aggs": agg_trees(true), "suggest": suggesters(), "variants_per_case": variants(4).len(), "sort_plans": sort_plans(), "rescore": rescore_json()}));
   if outcomes.len() < 2 {
     vcore::ev::machinery_failure("C13: fewer than two distinct outcomes observed");
   }
   let cov = vcore::cov! {
     "distinct_nontrivial" => nontrivial,
-    "rule" => "case = (world, query with >= 4 matches); each case is evaluated under every variant (3 executions x 3 sort plans x {limit n, cursor walks with page size 1,2,3}, return_hits off, explain / profile / rescore on, alone and combined with walks); an evaluation is one page of one variant; non-trivial = a variant whose walk has at least 2 pages. Oracle: aggregations (7 trees) and suggest (2 suggesters) of every page equal those of the reference variant (floats 1e-9, scores 1e-5).",
+    "rule" => "case = (world, query): plain queries with >= 4 matches, custom-scoring queries (function_score + min_score, script_score dividing by a field) that reject some but not all live documents; two request kinds (7 aggregation trees incl. top_hits / the 6 trees without top_hits, reduced variant set) each with its own reference; each case is evaluated under every variant (3 executions x 3 sort plans x {limit n, cursor walks with page size 1,2,3}, return_hits off, explain / profile / rescore on, alone and combined with walks); an evaluation is one page of one variant; non-trivial = a variant whose walk has at least 2 pages. Oracle: aggregations (7 trees) and suggest (2 suggesters) of every page equal those of the reference variant (floats 1e-9, scores 1e-5).",
     "corpora_x_layout_sets" => done,
     "planned" => plan.len(),
     "plan" => plan_text,
     "worlds" => worlds,
-    "cases_world_x_query_with_4plus_matches" => cases,
+    "cases_world_x_query" => cases,
+    "cases_with_custom_scoring_rejecting_some_documents" => custom_cases,
     "variant_requests_rejected" => verrs,
     "failure_classes" => by_sig,
     "distinct_observed_outcomes" => outcomes.len(),
@@ -444,5 +540,6 @@ pub fn run(ctx: &Ctx) -> i32 {
     "both suggesters travel in every request (one request = 7 aggregation trees + 2 suggesters) instead of multiplying the variants by the suggest requests".into(),
     "a variant whose request is rejected with an error (not a panic) is counted in variant_requests_rejected and not judged".into(),
     "the aggregation trees avoid the options that C12 shows to be applied per segment, so that the C12 oracle can serve the classifier".into(),
+    "classifiers only apply when the hit list of the variant's sort plan holds exactly the documents of the reference hit list".into(),
   ])
 }
